@@ -21,6 +21,7 @@ impl PartialEq for Name { fn eq(&self, o: &Name) -> bool { unimplemented!() } }
 //@@ TYPE src/generate/ast/node.rs | enum | Core
 //@@ TYPE src/generate/ast/node.rs | enum | CoreOp
 //@@ TYPE src/generate/ast/node.rs | enum | CoreFunOp
+//@@ TYPE src/check/name/string_name/mod.rs | struct | StringName | strip_derive=Hash,PartialOrd,Ord
 pub struct Imports { _x: u8 }
 
 // ---- /repo functions with ASSUMED contracts in this unit (bodies pinned: contracts/assume_pins.json) ----------------------------
@@ -39,8 +40,18 @@ pub struct ExHashSet<T>(HashSet<T>);
 #[verifier::external_type_specification] pub struct ExCoreOp(CoreOp);
 #[verifier::external_type_specification] pub struct ExCoreFunOp(CoreFunOp);
 #[verifier::external_type_specification] #[verifier::external_body] pub struct ExImports(Imports);
+#[verifier::external_type_specification] pub struct ExStringName(StringName);
 
 //@@ CONST src/check/context/clss/python.rs | UNION
+//@@ CONST src/check/context/clss/python.rs | TUPLE
+//@@ CONST src/check/context/clss/python.rs | CALLABLE
+//@@ CONST src/check/context/clss/python.rs | ANY
+pub mod clss {
+//@@ CONST src/check/context/clss/mod.rs | UNION
+//@@ CONST src/check/context/clss/mod.rs | TUPLE
+//@@ CONST src/check/context/clss/mod.rs | CALLABLE
+//@@ CONST src/check/context/clss/mod.rs | ANY
+}
 
 // ---- the HashSet (A-STD-COLL): a finite set; its iteration order is NOT specified --------------------------------------------------
 pub uninterp spec fn hs(s: HashSet<TrueName>) -> Set<TrueName>;
@@ -79,19 +90,25 @@ pub fn verif_first<'a>(v: Vec<&'a TrueName>) -> (r: Option<&'a TrueName>)
 
 // ---- the callees (A-EXT): functions of their arguments and of the import table ---------------------------------------------------------
 pub uninterp spec fn imp_add(i: Imports, m: Seq<char>, n: Seq<char>) -> Imports;
+/// the table holds `from m import .., n, ..` (unit IMPFROM proves on the real add_from_import: registered, nothing forgotten)
+pub uninterp spec fn imp_has(i: Imports, m: Seq<char>, n: Seq<char>) -> bool;
+pub open spec fn imp_grows(a: Imports, b: Imports) -> bool { forall|m: Seq<char>, n: Seq<char>| imp_has(a, m, n) ==> imp_has(b, m, n) }
 impl Imports {
     #[verifier::external_body]
-    pub fn add_from_import(&mut self, from: &str, import: &str) ensures *final(self) == imp_add(*old(self), from@, import@) { unimplemented!() }
+    pub fn add_from_import(&mut self, from: &str, import: &str)
+        ensures *final(self) == imp_add(*old(self), from@, import@), imp_has(*final(self), from@, import@), imp_grows(*old(self), *final(self)),
+    { unimplemented!() }
 }
 pub uninterp spec fn core_type_of(lit: Seq<char>, generics: Seq<Name>, i: Imports) -> (Core, Imports);
 #[verifier::external_body]
 pub fn core_type(lit: &str, generics: &[Name], imp: &mut Imports) -> (r: Core)
-    ensures (r, *final(imp)) == core_type_of(lit@, generics@, *old(imp)),
+    ensures (r, *final(imp)) == core_type_of(lit@, generics@, *old(imp)), imp_grows(*old(imp), *final(imp)),
+        r matches Core::Type { lit: l, generics: g } && l@ == lit@,
 { unimplemented!() }
 pub uninterp spec fn tn_py(t: TrueName, i: Imports) -> (Core, Imports);
 impl TrueName {
     #[verifier::external_body]
-    pub fn to_py(&self, imp: &mut Imports) -> (r: Core) ensures (r, *final(imp)) == tn_py(*self, *old(imp)) { unimplemented!() }
+    pub fn to_py(&self, imp: &mut Imports) -> (r: Core) ensures (r, *final(imp)) == tn_py(*self, *old(imp)), imp_grows(*old(imp), *final(imp)) { unimplemented!() }
 }
 
 // ---- specification (C12) ------------------------------------------------------------------------------------------------------------
@@ -114,7 +131,7 @@ pub proof fn lemma_single_member(s: Set<TrueName>, x: TrueName, y: TrueName)
 }
 
 impl Name {
-//@@ FN src/generate/name.rs | impl ToPy for Name | to_py | props=C12,C03
+//@@ FN src/generate/name.rs | impl ToPy for Name | to_py | props=C12,C16,C03
 //@@ REPLACE optional
 //@@< self.names.iter().sorted().map(Name::from).collect()
 //@@> verif_map_name_from(verif_sorted(verif_iter_any(&self.names), Ghost(hs(self.names))))
@@ -137,6 +154,62 @@ impl Name {
         hs(self.names).len() > 1 ==> (r, *final(imp)) == union_py(hs(self.names), *old(imp)),   //# a_union_is_written_with_its_members_in_ascending_order_whatever_the_iteration_order [C12]
         hs(self.names).len() == 1 ==> forall|x: TrueName| hs(self.names).contains(x) ==> (r, *final(imp)) == tn_py(x, *old(imp)),   //# a_single_member_is_written_as_itself [C12]
         hs(self.names).len() == 0 ==> r == Core::Empty && *final(imp) == *old(imp),   //# no_member_writes_nothing [C12]
+        imp_grows(*old(imp), *final(imp)),                                          //# imports_only_grow [C16]
+        hs(self.names).len() > 1 ==> imp_has(*final(imp), "typing"@, UNION@),        //# a_union_type_registers_the_typing_import_it_uses [C16]
+//@@ END
+}
+
+// ---- StringName::to_py (C16: Tuple / Callable / Any / Union are imported from typing whenever they are emitted) ---------------------
+/// OUTLINED `a == b` on &str (match on &str constants is spelled as an if/else chain over this helper)
+#[verifier::external_body]
+pub fn verif_str_is(a: &str, b: &str) -> (r: bool) ensures r == (a@ == b@) { unimplemented!() }
+/// OUTLINED `self.generics.iter().sorted().fold(Name::empty(), |acc, n| acc.union(n))`: the union of the generics
+#[verifier::external_body]
+pub fn verif_union_of(generics: &Vec<Name>) -> Name { unimplemented!() }
+/// OUTLINED `self.generics.first()/.get(1) .cloned().unwrap_or_else(Name::empty)`
+#[verifier::external_body]
+pub fn verif_nth_or_empty(generics: &Vec<Name>, n: usize) -> Name { unimplemented!() }
+/// clss::concrete_to_python (a table of &str constants)
+#[verifier::external_body]
+pub fn concrete_to_python(name: &str) -> String { unimplemented!() }
+
+impl StringName {
+//@@ FN src/generate/name.rs | impl ToPy for StringName | to_py | as=string_name_to_py | props=C16,C03
+//@@ REPLACE deep
+//@@< match self.name.as_str() { clss::UNION => $$, clss::TUPLE => { $$ } clss::CALLABLE => { $$ } other => { $$ } }
+//@@> if verif_str_is(self.name.as_str(), clss::UNION) { $$1 } else if verif_str_is(self.name.as_str(), clss::TUPLE) { $$2 } else if verif_str_is(self.name.as_str(), clss::CALLABLE) { $$3 } else { let other = self.name.as_str(); $$4 }
+//@@ HINT before
+//@@< match self.name.as_str()
+//@@> proof { reveal_strlit("Union"); reveal_strlit("Tuple"); reveal_strlit("Callable"); reveal_strlit("Any"); assert(clss::UNION@.len() == 5 && clss::TUPLE@.len() == 5 && clss::CALLABLE@.len() == 8 && clss::ANY@.len() == 3); assert(clss::UNION@[0] == 'U' && clss::TUPLE@[0] == 'T'); }
+//@@ REPLACE pin=28692c020ceb
+//@@< self .generics .iter() .sorted() .fold($$)
+//@@> verif_union_of(&self.generics)
+//@@ REPLACE
+//@@< core_type(TUPLE, &self.generics, imp)
+//@@> core_type(TUPLE, self.generics.as_slice(), imp)
+//@@ REPLACE
+//@@< self.generics.first().cloned().unwrap_or_else(Name::empty)
+//@@> verif_nth_or_empty(&self.generics, 0)
+//@@ REPLACE
+//@@< self.generics.get(1).cloned().unwrap_or_else(Name::empty)
+//@@> verif_nth_or_empty(&self.generics, 1)
+//@@ REPLACE
+//@@< core_type(CALLABLE, &[args, ret], imp)
+//@@> core_type(CALLABLE, vec![args, ret].as_slice(), imp)
+//@@ REPLACE
+//@@< other == clss::$anyk
+//@@> verif_str_is(other, clss::$anyk)
+//@@ REPLACE
+//@@< concrete_to_python(&self.name)
+//@@> concrete_to_python(self.name.as_str())
+//@@ REPLACE
+//@@< core_type(&lit, &self.generics, imp)
+//@@> core_type(lit.as_str(), self.generics.as_slice(), imp)
+    ensures
+        imp_grows(*old(imp), *final(imp)),                                          //# imports_only_grow [C16]
+        self.name@ == clss::TUPLE@ ==> imp_has(*final(imp), "typing"@, TUPLE@) && (r matches Core::Type { lit, generics } && lit@ == TUPLE@),   //# a_tuple_type_is_emitted_as_typing_tuple_and_imported [C16]
+        self.name@ == clss::CALLABLE@ ==> imp_has(*final(imp), "typing"@, CALLABLE@) && (r matches Core::Type { lit, generics } && lit@ == CALLABLE@),   //# a_function_type_is_emitted_as_typing_callable_and_imported [C16]
+        self.name@ == clss::ANY@ ==> imp_has(*final(imp), "typing"@, ANY@),          //# any_is_imported_whenever_it_is_emitted [C16]
 //@@ END
 }
 
